@@ -356,6 +356,15 @@ impl<T> ExactSizeIterator for LocalPinnedPoolIterator<'_, T> {
 
 impl<T> FusedIterator for LocalPinnedPoolIterator<'_, T> {}
 
+#[cfg(folo_verif)]
+impl<T: 'static> LocalPinnedPool<T> {
+    /// Verification hook: read-only internal consistency probe.
+    #[doc(hidden)]
+    pub fn __verif_check(&self) -> Result<(), String> {
+        self.inner.borrow().__verif_check()
+    }
+}
+
 #[cfg(test)]
 #[cfg_attr(coverage_nightly, coverage(off))]
 mod tests {
